@@ -273,6 +273,19 @@ def _scalar_ok(v):
     return np.ndim(v) == 0
 
 
+def edge_variants_same(vc, fam, par, x, fv):
+    """pdf at a boundary point with the parameters passed explicitly - scalars by keyword and positionally,
+    length-2 arrays with x as list - gives the value of the instance, bit for bit"""
+    other = D.build(vc, fam, D.STORED[fam])
+    try:
+        a = other.pdf(x, **par)
+        b = other.pdf(x, *[par[n] for n in D.NAMES[fam]])
+        c = other.pdf([x, x], **{n: np.array([v, v]) for n, v in par.items()})
+    except Exception:  # noqa
+        return False
+    return bool(D.compare(a, fv)[0] and D.compare(b, fv)[0] and D.compare(c, [fv, fv])[0])
+
+
 def laws_record(vc, rid, case):
     """tabulate one real distribution object and attach the documented reference values"""
     from . import reference as R
@@ -301,6 +314,7 @@ def laws_record(vc, rid, case):
         fsgn, fcls, frel, fabs_ = [], [], [], []
         rtxin, rtx, rtxtail = [], [], []
         Fref = []
+        edge = []
 
         def dist_of(v):
             """distance from the nearest finite support boundary (scale of the table if there is none)"""
@@ -330,16 +344,25 @@ def laws_record(vc, rid, case):
             span = max(abs(x), abs(lo_f) if math.isfinite(lo_f) else 0.0, abs(hi_f) if math.isfinite(hi_f) else 0.0)
             dx = 8 * EPS * span          # a few ulp of x / loc / loc+scale: what a double can resolve
             on_edge = (X == lo or X == hi)
-            if np.isnan(fv):
+            if on_edge:
+                # boundary point of the support: the value of the documented formula there (its limit from
+                # inside: finite, 0 or +inf) - judged by the clause PdfAtSupportBoundary, with the parameters
+                # stored in the instance and passed explicitly (scalars / arrays, keyword / positional)
+                fcls.append(0); frel.append(0); fabs_.append(0)
+                if pr == R.INF:
+                    good = bool(fv == np.inf)
+                elif pr == 0:
+                    good = bool(fv == 0)
+                else:
+                    good = bool(np.isfinite(fv) and abs(R.M(float(fv)) - pr) <= R.M("1e-8") * pr)
+                edge.append(dict(x=repr(x), want=("inf" if pr == R.INF else repr(float(pr))), got=repr(float(fv)),
+                                 ok=good, same=edge_variants_same(vc, fam, par, x, fv)))
+            elif np.isnan(fv):
                 fcls.append(2); frel.append(BIG); fabs_.append(BIG)
             elif pr == R.INF:
-                # documented density unbounded at this point: no value is prescribed
-                fcls.append(1); frel.append(0); fabs_.append(0)
+                fcls.append(1 if fv == np.inf else 2); frel.append(0); fabs_.append(0)
             elif not np.isfinite(fv):
                 fcls.append(2); frel.append(BIG); fabs_.append(BIG)
-            elif on_edge and fv == 0:
-                # boundary point of the support: either one-sided limit is a version of the density
-                fcls.append(0); frel.append(0); fabs_.append(0)
             else:
                 fcls.append(0)
                 d = abs(R.M(float(fv)) - pr)
@@ -438,6 +461,7 @@ def laws_record(vc, rid, case):
         if fam == "NormFit":
             momrel = Qc(normfit_moment_error(dist, par), 1e12, 0, BIG)
         rec.update(par={k: repr(v) for k, v in par.items()}, npts=n, side=side, Ffin=Ffin, Fq=Fq, Frq=Frq, Fexact=Fexact,
+                   edgeok=all(e["ok"] for e in edge), edgesame=all(e["same"] for e in edge), nedge=len(edge), edge=edge,
                    fsgn=fsgn, fcls=fcls, frel=frel, fabs=fabs_, rtxin=rtxin, rtx=rtx, rtxtail=rtxtail,
                    gok=gok, pin=pin, ptail=ptail, rtp=rtp, gend=gend, gtolE12=10000, gptolE15=1000, gpulps=16,
                    dlo=dlo, dmid=dmid, dhi=dhi, dslope=dsl,
@@ -518,6 +542,11 @@ def law_cases(ctx, classes):
     # fixed probes of the large-kappa region of the von Mises distribution (class kappa > 1)
     out.append(dict(fam="VonMises", cl=[2, 0], rep=60, npts=npts, par=dict(kappa=60.0, mu=0.0)))
     out.append(dict(fam="VonMises", cl=[2, 1], rep=200, npts=npts, par=dict(kappa=200.0, mu=1.1)))
+    # fixed probes of the boundary value: product of the shapes exactly 1 with factors different from 1
+    out.append(dict(fam="ExpWeibull", cl=[0, 2, 2], rep=901, npts=npts, par=dict(alpha=1700.0, beta=0.5, delta=2.0)))
+    out.append(dict(fam="ExpWeibull", cl=[2, 1, 0], rep=902, npts=npts, par=dict(alpha=1.7, beta=2.0, delta=0.5)))
+    out.append(dict(fam="GenGamma", cl=[0, 2, 2], rep=901, npts=npts, par=dict(m=2.0, c=0.5, lambda_=0.0005)))
+    out.append(dict(fam="GenGamma", cl=[2, 1, 0], rep=902, npts=npts, par=dict(m=0.5, c=2.0, lambda_=0.6)))
     return out
 
 
@@ -577,6 +606,8 @@ def judge(ctx, vc, ocases, lcases, summary=True, hists=(), icases=()):
 def laws_detail(r, clause):
     if r["exc"]:
         return r["exc"]
+    if clause == "PdfAtSupportBoundary":
+        return "pdf at the support boundary: " + str([e for e in r["edge"] if not (e["ok"] and e["same"])][:2])
     if clause == "ArrayLikeKindsAgree":
         return f"kexc={r['kexc']} kshape={r['kshape']} krel={r['krel']}e-15"
     if clause == "CdfMatchesDocumentedFormula":
@@ -657,6 +688,7 @@ def selftest(ctx, orec, lrec):
         ds = list(lrec["dslope"]); ds[0] = int(ds[0] * 1.01) + 10
         mut(lrec, "PdfIsDerivative", dslope=ds)
     mut(lrec, "ArrayLikeKindsAgree", krel=500)
+    mut(lrec, "PdfAtSupportBoundary", edgeok=False)
     fc = list(lrec["fcls"]); fc[k0] = 2
     mut(lrec, "FiniteValues", fcls=fc)
     failing = ctx.validate("Trace_C05", "Trace_C05.cfg", [m for m, _ in muts])
